@@ -472,6 +472,7 @@ pub unsafe extern "C" fn close(fd: i32) -> i32 {
         mark_closed(fd, false);
         SIM_FDS[fd as usize].store(false, Ordering::Relaxed);
     }
+    crate::simdisk::note_close(fd);
     unsafe { real_close()(fd) }
 }
 
@@ -596,7 +597,11 @@ pub unsafe extern "C" fn open64(path: *const libc::c_char, flags: i32, mode: lib
         set_errno(libc::EACCES);
         return -1;
     }
-    unsafe { real_open64()(path, flags, mode) }
+    let fd = unsafe { real_open64()(path, flags, mode) };
+    if crate::simdisk::armed() && fd >= 0 && !path.is_null() {
+        crate::simdisk::note_open(fd, &unsafe { std::ffi::CStr::from_ptr(path) }.to_string_lossy(), flags);
+    }
+    fd
 }
 
 #[no_mangle]
@@ -605,7 +610,11 @@ pub unsafe extern "C" fn open(path: *const libc::c_char, flags: i32, mode: libc:
         set_errno(libc::EACCES);
         return -1;
     }
-    unsafe { real_open()(path, flags, mode) }
+    let fd = unsafe { real_open()(path, flags, mode) };
+    if crate::simdisk::armed() && fd >= 0 && !path.is_null() {
+        crate::simdisk::note_open(fd, &unsafe { std::ffi::CStr::from_ptr(path) }.to_string_lossy(), flags);
+    }
+    fd
 }
 
 #[no_mangle]
